@@ -166,6 +166,61 @@ def rule_type(ctx, f):
     ctx.check(bool(sh) and sh[0]["s"].startswith("std::sync::Arc<"), "C13-TYPE", "error::PdfError::Shared#arc", "shared errors are not Arc'd", detail="Shared{source: Arc<PdfError>}")
 
 
+def rule_once(ctx, f):
+    ctx.rule("C13-ONCE", "a compute-once cell that several threads may reach (`OnceCell` field) is filled only through get_or_init / get_or_try_init; a `set` whose "
+             "failure (another thread was first) is turned into an error makes the outcome depend on the schedule")
+    n = 0
+    for b in f.bodies.values():
+        if b.get("mac") and any(m.startswith("derive(") for m in b["mac"]):
+            continue
+        fl = None
+        for bi, t in F.calls(b):
+            n_ = F.callee_name(t) + " " + t.get("callee_full", "")
+            if "OnceCell" not in n_ and "OnceLock" not in n_:
+                continue
+            seg = last_seg(F.callee_name(t))
+            if seg in ("get_or_init", "get_or_try_init"):
+                n += 1
+                ctx.ok("C13-ONCE", "%s#%s" % (b["id"], seg), "atomic initialisation")
+            if seg == "set":
+                n += 1
+                # is the Err of `set` consumed as a failure? (map_err / ? / match)  `let _ = cell.set(..)` is fine
+                d = t["dest"][0] if t.get("dest") else None
+                fl = fl or Flow(b)
+                used = False
+                if d is not None:
+                    for bj, tj in F.calls(b):
+                        if bj != bi and any(F.op_local(a) == d or (F.op_local(a) is not None and any(x[0] == "call" and x[2] == bi for x in fl.origins(F.op_local(a)))) for a in tj["args"]):
+                            if last_seg(F.callee_name(tj)) in ("map_err", "branch", "unwrap", "expect", "ok_or", "is_err", "is_ok"):
+                                used = True
+                    for i, bb in enumerate(b["blocks"]):
+                        tt = bb["term"]
+                        if tt["k"] == "switch":
+                            dl = F.op_local(tt["discr"])
+                            for st in bb["stmts"]:
+                                if st[0] == "assign" and st[1] == [dl] and st[2][0] == "discr" and st[2][1][0] == d:
+                                    used = True
+                ctx.check(not used, "C13-ONCE", "%s#set" % b["id"], "the result of OnceCell::set decides the outcome: when two threads fill the cell at the same time one of them "
+                          "gets an error (or a different value) although a sequential reader never would", t["span"], detail="set() result ignored")
+    ctx.floor("C13-ONCE", n, 1, "initialisations of compute-once cells (Lazy::load)")
+
+
+def rule_excl(ctx, f):
+    ctx.rule("C13-EXCL", "the object / stream caches are cleared only by bodies that hold the storage exclusively (&mut self): clearing from a shared read path "
+             "removes entries other threads are computing or waiting for")
+    n = 0
+    for b in f.bodies.values():
+        for bi, t in F.calls(b):
+            if last_seg(F.callee_name(t)) == "clear" and (t.get("trait") == "file::Cache" or "file::Cache" in F.callee_name(t)):
+                if (b.get("impl") or {}).get("trait") == "file::Cache":
+                    continue        # the adapter forwarding clear()
+                n += 1
+                recv = b["locals"][1]["s"] if b["argc"] >= 1 else ""
+                ctx.check(recv.startswith("&mut "), "C13-EXCL", "%s#cache-clear" % b["id"], "a cache is cleared from a body that only has shared access (%s): concurrent "
+                          "loads lose their in-progress entries" % recv, t["span"], detail="receiver %s" % recv)
+    ctx.floor("C13-EXCL", n, 2, "cache clear sites (create, update)")
+
+
 def run(ctx):
     f = F.load("default")
     ctx.count("bodies", len(f.bodies))
@@ -178,6 +233,8 @@ def run(ctx):
             rule_g1(ctx, f, b, pc)
             rule_lock2(ctx, f, b)
     rule_type(ctx, f)
+    rule_once(ctx, f)
+    rule_excl(ctx, f)
     return ctx.finish(
         "Static analysis of MIR facts of file.rs / object/mod.rs / any.rs: liveness of the MutexGuard relative to the load calls "
         "(must-pass-through of its Drop), RAII pairing of push/pop, a sharing rule on the guard container (behind a Mutex, reached "
